@@ -55,6 +55,20 @@ def self_validation(prop: str) -> None:
     st_run.ONLY.add(prop)
     with Pool(min(16, max(1, len(entries)))) as pool:
         results = pool.map(st_run.run_entry, entries, chunksize=1)
+    from selftest import corpus
+    centries = corpus.entries(prop)
+    if centries:
+        with Pool(min(16, max(1, len(centries)))) as pool:
+            cres = pool.map(corpus.run_entry, centries, chunksize=1)
+    else:
+        cres = []
+    ctally = {}
+    for r in cres:
+        ctally[r["status"]] = ctally.get(r["status"], 0) + 1
+    print(f"[{prop}/thorough] archived seeded / behaviour-preserving changes re-applied in memory: {ctally}")
+    for r in cres:
+        if r["status"] in ("MISSED", "FALSE-ALARM", "error", "stale"):
+            print(f"  CORPUS {r['status']}: {r['id']} {r.get('hits', [])[:2]} {r.get('errors', [])[:1]} {r.get('why', '')}")
     tally = {}
     for r in results:
         tally[r["status"]] = tally.get(r["status"], 0) + 1
@@ -73,6 +87,9 @@ def self_validation(prop: str) -> None:
             "not_ok": [{"id": r["id"], "status": r["status"]} for r in bad],
             "note": "mutants/variants are textual edits of the current sources analysed in memory; stale = anchor text no longer present",
         }
+        ev["coverage"]["corpus"] = {"tally": ctally, "entries": [{"id": r["id"], "status": r["status"], "hits": r.get("hits", [])[:2]} for r in cres],
+                                    "note": "archived seeded changes (must be reported) and behaviour-preserving changes (must stay silent) from independent sub-agents, "
+                                            "re-applied in memory to the current sources"}
         with open(ev_path, "w") as f:
             json.dump(ev, f, indent=1, default=str)
     except (OSError, ValueError):
